@@ -235,6 +235,8 @@ class Executor:
         return None if t == '-' else self.name(t)
 
     def optdict(self, t):
+        if t != '-' and t not in self.dicts:
+            raise NoObject(t)
         return None if t == '-' else self.dicts[t]
 
     def ren(self, s):
